@@ -17,11 +17,47 @@ def errclass(e):
     return 'Other:' + type(e).__name__
 
 
-def guarded(f):
+_ISOLATE_SUBCALLS = [False]
+
+
+def _guarded_plain(f):
     try:
         return f()
     except Exception as e:  # noqa
         return {'error': errclass(e), 'msg': str(e)[:160]}
+
+
+def isolated(f):
+    """Run f() in a forked child and hand its (JSON) result back through a pipe, so that a
+    segmentation fault in an extension module (bounds checks are off in the Cython code)
+    becomes the outcome {'error': 'Crash'} of that call instead of the end of the driver."""
+    sys.stdout.flush()
+    rfd, wfd = os.pipe()
+    pid = os.fork()
+    if pid == 0:
+        try:
+            os.close(rfd)
+            out = json.dumps(_guarded_plain(f))
+            with os.fdopen(wfd, 'w') as fh:
+                fh.write(out)
+        except BaseException:  # noqa
+            pass
+        finally:
+            os._exit(0)
+    os.close(wfd)
+    with os.fdopen(rfd) as fh:
+        data = fh.read()
+    _, status = os.waitpid(pid, 0)
+    if os.WIFSIGNALED(status) or not data:
+        return {'error': 'Crash', 'msg': 'the interpreter died (signal %s) inside this call' % (
+            os.WTERMSIG(status) if os.WIFSIGNALED(status) else '?')}
+    return json.loads(data)
+
+
+def guarded(f):
+    if _ISOLATE_SUBCALLS[0]:
+        return isolated(f)
+    return _guarded_plain(f)
 
 
 def ints(a):
@@ -262,45 +298,78 @@ def main():
     def run_sweep(c):
         # every combination of 0/1 patterns of the given blocks (or the listed indices
         # of that enumeration); the property is evaluated here with the independent
-        # oracle of harness/impl/c15_oracle.py; only failures are sent back
+        # oracle of harness/impl/c15_oracle.py; only failures are sent back.
+        # The cases run in forked children, CHUNK at a time; a chunk whose child dies is
+        # repeated case by case so that the crashing pattern is identified.
         from harness.impl import c15_oracle
         blocks = c['blocks']
-        nbits = [m * n for m, n in blocks]
-        total = 1
-        for b in nbits:
-            total *= 2 ** b
-        idxs = c['indices'] if c.get('indices') is not None else range(c['shard'], total, c['nshards'])
-        fails, count, nontrivial = [], 0, 0
-        for idx in idxs:
-            rem = idx
-            bidx = []
-            for (m, n), b in zip(blocks, nbits):
-                bits = rem % (2 ** b)
-                rem //= 2 ** b
-                bidx.append([[q // n, q % n] for q in range(b) if (bits >> q) & 1])
-            M = 1
-            N = 1
-            for m, n in blocks:
-                M *= m
-                N *= n
-            case = {'kind': 'ml', 'bs': blocks, 'bidx': bidx,
-                    'rows': [(r * 5 + 3) % M for r in range(M)] if M % 5 else list(range(M - 1, -1, -1)),
-                    'cols': list(range(N - 1, -1, -1))}
-            r = guarded(lambda: run_ml(case, light=True))
-            count += 1
-            if all(len(b) > 0 for b in bidx):
-                nontrivial += 1
-            bad = [('sweep-raises', str(r))] if 'error' in r else c15_oracle.check_ml(case, r, light=True)
-            if bad and len(fails) < 5:
-                fails.append({'case': case, 'impl': r, 'bad': bad})
-            elif bad:
-                fails.append({'bad': bad[:1]})
-        return {'count': count, 'nontrivial': nontrivial, 'fails': fails[:200]}
+        total = c15_oracle.sweep_total(blocks)
+        idxs = list(c['indices'] if c.get('indices') is not None else range(c['shard'], total, c['nshards']))
+        kp = bool(c.get('kron_partial'))
+        fails, count, nontrivial, crashed_chunks = [], 0, 0, 0
+
+        def eval_idx(idx):
+            try:
+                return eval_idx_(idx)
+            except Exception as e:  # noqa
+                return {'bad': [['sweep-raises', '%s: %s' % (errclass(e), str(e)[:160])]],
+                        'case': c15_oracle.sweep_kronp_case(blocks, idx) if kp else c15_oracle.sweep_case(blocks, idx), 'impl': None}
+
+        def eval_idx_(idx):
+            case = c15_oracle.sweep_case(blocks, idx)
+            if kp:
+                kc = c15_oracle.sweep_kronp_case(blocks, idx)
+                r = {'restrict': run_kronp(dict(kc, restrict=True)), 'full': run_kronp(dict(kc, restrict=False))}
+                bad = c15_oracle.check_kronp(dict(kc, restrict=True), r['restrict']) + c15_oracle.check_kronp(dict(kc, restrict=False), r['full'])
+                return {'bad': bad, 'case': kc, 'impl': r} if bad else None
+            r = run_ml(case, light=True)
+            bad = c15_oracle.check_ml(case, r, light=True)
+            return {'bad': bad, 'case': case, 'impl': r} if bad else None
+
+        CHUNK = 256
+        for a in range(0, len(idxs), CHUNK):
+            chunk = idxs[a:a + CHUNK]
+            res = isolated(lambda: [eval_idx(i) for i in chunk])
+            if isinstance(res, dict) and 'error' in res:
+                crashed_chunks += 1
+                res = []
+                for i in chunk:
+                    if len([f for f in fails if f.get('crash')]) >= 3:
+                        break
+                    ri = isolated(lambda: eval_idx(i))
+                    if isinstance(ri, dict) and 'error' in ri:
+                        kc = c15_oracle.sweep_kronp_case(blocks, i) if kp else c15_oracle.sweep_case(blocks, i)
+                        ri = {'bad': [['crash' + ('-kron-partial' if kp else '-rows-cols'),
+                                       'the interpreter died while answering nonzero/per-row/per-column%s queries on this pattern: %s' % (
+                                           '/kron_partial' if kp else '', ri.get('msg'))]],
+                              'case': kc, 'impl': ri, 'crash': True}
+                    res.append(ri)
+            for idx, f in zip(chunk, res):
+                count += 1
+                if all(len(b) > 0 for b in c15_oracle.sweep_bidx(blocks, idx)):
+                    nontrivial += 1
+                if f:
+                    fails.append(f if len(fails) < 6 or f.get('crash') else {'bad': f['bad'][:1]})
+            if crashed_chunks >= 8:
+                break       # the same crash everywhere: stop, the evaluated count says how far we got
+        return {'count': count, 'nontrivial': nontrivial, 'fails': fails[:200], 'crashed_chunks': crashed_chunks}
 
     runners = {'sweep': run_sweep, 'hist': run_hist, 'ml': run_ml, 'reindex': run_reindex, 'kvs': run_kvs, 'kronp': run_kronp, 'gen': run_gen}
     out = []
     for c in payload['cases']:
-        r = guarded(lambda: runners[c['kind']](c))
+        if c['kind'] == 'sweep':
+            r = _guarded_plain(lambda: run_sweep(c))
+        else:
+            # one forked child per case; if it dies, repeat the case with every sub-call in its
+            # own child so that the crashing call is identified and the others still answer
+            r = isolated(lambda: runners[c['kind']](c))
+            if isinstance(r, dict) and r.get('error') == 'Crash':
+                _ISOLATE_SUBCALLS[0] = True
+                try:
+                    r2 = _guarded_plain(lambda: runners[c['kind']](c))
+                finally:
+                    _ISOLATE_SUBCALLS[0] = False
+                r = r2 if not (isinstance(r2, dict) and 'error' in r2) else r
         out.append(r)
     print(json.dumps({'results': out, 'probe': {'rect_ok': rect_ok, 'out': pr}}))
 
